@@ -18,6 +18,7 @@ RULE = (
     "block that is not physically adjacent, or touches a block index >= chunk_ratio."
     ' Creator fields filled to the last unit, cut inside a surrogate pair or holding arbitrary bytes; images also opened through a minimal file object or by a second reader on the same handle after the first was dropped; a second process variant runs with debug logging switched on.'
 )
+RULE += ' Round 10: transient OSError then retry; content flavours; two readers over one handle; anonymous temp-file handles; an unknown not-required metadata item.'
 ASSUMPTIONS = [
     "only the metadata items the specification defines as system items are written (no user metadata)",
     "CRC-32C checksums of headers and region tables are written correctly; the reader does not verify them",
